@@ -221,7 +221,11 @@ void c02_case(Ctx& c, Rng& r) {
     const int nstores = c.thorough ? 8 : 4;
     for (int i = 0; i < nstores; ++i) {
         const std::int64_t req = weird_seconds(r);
-        const auto id = fx::chunk_id_n(static_cast<unsigned>(i));
+        // one store in three repeats an id stored earlier in this case (same content uploaded again): the lifetimes
+        // created for *this* store are what counts, whatever the earlier store left behind
+        const bool again = i > 0 && r.chance(1, 3);
+        const auto id = fx::chunk_id_n(again ? static_cast<unsigned>(r.below(static_cast<std::uint64_t>(i))) : static_cast<unsigned>(i));
+        if (again) c.note("lifetimes.repeated-stores");
         const auto key = chunk_id_to_string(id);
         const auto s0 = fx::steady_ns(), w0 = fx::system_ns();
         const auto manifest = f.node->store_chunk(id, r.bytes(16), seconds(req));
@@ -647,6 +651,27 @@ void c11_case(Ctx& c, Rng& r) {
         const auto cli = tu_cli::decrypt_chunk(decoded, cp);
         c.note("roundtrip.cli-decrypt");
         if (!cli || *cli != payload) c.violation("C11:roundtrip:cli-decrypt-differs", desc().kv("has", cli.has_value()).str());
+    }
+    // (e) the same chunk id stored again (the same file uploaded twice, or the id reused for other content):
+    //     the manifest of *this* store must recover *this* payload, on the storing node and on a node that
+    //     already imported the first replica
+    if (r.chance(1, 2)) {
+        const auto payload2 = r.chance(2, 3) ? payload : r.bytes(size ? size : 1);
+        const auto manifest2 = A.store_chunk(id, payload2, ttl);
+        const auto uri2 = protocol::encode_manifest(manifest2);
+        c.note("roundtrip.repeated-stores");
+        const auto la2 = A.fetch_chunk(id);
+        if (!la2 || *la2 != payload2) c.violation("C11:roundtrip:local-fetch-differs-after-repeated-store", desc().kv("has", la2.has_value()).kv("same_payload", payload2 == payload).str());
+        const auto held2 = A.chunk_store_.chunks_.at(key).data;
+        const auto k2 = ref_combine(manifest2.shards, manifest2.threshold);
+        if (held2 != ref::chacha20_rfc(k2.data(), manifest2.nonce.bytes.data(), ref::le32(id.data()), std::span<const std::uint8_t>(payload2.data(), payload2.size())))
+            c.violation("C11:held-bytes:not-chacha20-under-share-key", desc().kv("after", "repeated-store").str());
+        const auto rb2 = B.receive_chunk(uri2, held2);
+        if (!rb2 || *rb2 != payload2) c.violation("C11:roundtrip:replica-import-differs-after-repeated-store", desc().kv("has", rb2.has_value()).str());
+        else {
+            const auto fb2 = B.fetch_chunk(id);
+            if (!fb2 || *fb2 != payload2) c.violation("C11:roundtrip:replica-fetch-differs-after-repeated-store", desc().kv("has", fb2.has_value()).str());
+        }
     }
     // corruptions on a fresh node each
     const int ncorrupt = c.thorough ? 12 : 8;
